@@ -914,6 +914,14 @@ class Interp:
         defaults = tuple(self.eval(d, frame) for d in node.args.defaults)
         return Closure(node, frame, frame.globs, frame.mangle, frame.qualname + '.<lambda>', defaults)
 
+    def guarded_eval(self, node, frame):
+        try:
+            return self.eval(node, frame)
+        except Raised:
+            if not self.ctx.feasible(z3.BoolVal(True)):
+                raise PathInfeasible()
+            raise
+
     def e_IfExp(self, node, frame):
         c = self.truth(self.eval(node.test, frame))
         if isinstance(c, bool):
@@ -927,14 +935,14 @@ class Interp:
             mk = self.ctx.push_guard(c)
             a = b = _MISSING
             try:
-                a = self.eval(node.body, frame)
+                a = self.guarded_eval(node.body, frame)
             except PathInfeasible:
                 pass
             finally:
                 self.ctx.pop_guard(mk)
             mk = self.ctx.push_guard(z3.Not(c))
             try:
-                b = self.eval(node.orelse, frame)
+                b = self.guarded_eval(node.orelse, frame)
             except PathInfeasible:
                 pass
             finally:
@@ -1000,7 +1008,7 @@ class Interp:
             try:
                 for e in node.values:
                     try:
-                        v = self.eval(e, frame)
+                        v = self.guarded_eval(e, frame) if marks else self.eval(e, frame)
                     except PathInfeasible:
                         if not marks:
                             raise
@@ -1115,7 +1123,7 @@ class Interp:
             return b if isinstance(b, bool) else wrap(b)
         mk = self.ctx.push_guard(a)
         try:
-            b = self.truth(self.eval(node.args[1], frame))
+            b = self.truth(self.guarded_eval(node.args[1], frame))
         except PathInfeasible:
             b = True
         finally:
